@@ -95,7 +95,9 @@ class MakeFilename(object):
         self._methods = methods
 
     def _set_context(self, context):
-        self._context = context
+        # a deep copy, otherwise further elements
+        # might change our context
+        self._context = deepcopy(context)
 
     def __call__(self, value):
         """Add *output* keys to the *value*'s context.
